@@ -7,7 +7,7 @@
                                  /\ I3 (the stored _psd is inherited along every listing edge)
                                  /\ W  (containers list layers; exactly the allocated ids occur; no cycle flag).
    No cycle can be expressed in the forest: "no group is its own ancestor" is I2 on rose trees. *)
-From PsdV Require Import Base.Prelude Edit.Model Edit.Corr Edit.Inv Edit.Forest Edit.ProofsInv Edit.ProofsTree Edit.ProofsRefuse.
+From PsdV Require Import Base.Prelude Edit.Model Edit.Corr Edit.Inv Edit.Forest Edit.ProofsInv Edit.ProofsTree Edit.ProofsRefuse Edit.Spec Edit.ProofsMoves.
 Open Scope Z_scope.
 
 (* ---------------------------------------------------------------- the invariant, for all states and operations *)
@@ -71,9 +71,7 @@ Print Assumptions find_visits_once.
    delete_layer, a setter or a read-only operation that answers an error -- AssertionError for the group
    itself / a non-layer / a reference loop, IndexError, ValueError, AttributeError -- leaves the tree
    unchanged, from ANY state (no invariant needed).  The side condition excludes exactly the class of
-   extend_self_refuted (the list cycle).  refused_unchanged_partial: for move_to_group the three
-   refusals the property names are covered by the second theorem; that move_up / move_to_group cannot
-   fail after their remove step, and group_layers (which can: F-C10-4), are left to the oracle. *)
+   extend_self_refuted (the list cycle). *)
 Theorem refused_unchanged : forall s o c,
   early_refusing o = true -> snd (step s o) = Fail c -> corrupt (fst (step s o)) = corrupt s ->
   same_tree s (fst (step s o)).
@@ -86,6 +84,43 @@ Theorem move_into_self_or_descendant_refused : forall s x g,
   (exists c, snd (step s (MoveToGroup x g)) = Fail c) /\ same_tree s (fst (step s (MoveToGroup x g))).
 Proof. exact move_to_group_refused_unchanged. Qed.
 Print Assumptions move_into_self_or_descendant_refused.
+
+(* From states satisfying the invariant, move_to_group / move_up / move_down cannot fail once they have
+   removed the layer from its list (the second validity check sees the same subtree as the first; a
+   lister is never below its member): every error of these operations leaves the tree unchanged. *)
+Theorem move_to_group_refused_unchanged : forall s x g c,
+  Inv s -> quiet s -> alloc_ok s x -> alloc_ok s g -> snd (step s (MoveToGroup x g)) = Fail c ->
+  same_tree s (fst (step s (MoveToGroup x g))).
+Proof. intros s x g c HI Q. apply move_to_group_refused_unchanged_all. split; assumption. Qed.
+Print Assumptions move_to_group_refused_unchanged.
+
+Theorem move_up_down_refused_unchanged : forall s x off c,
+  Inv s -> quiet s -> alloc_ok s x ->
+  (snd (step s (MoveUp x off)) = Fail c -> same_tree s (fst (step s (MoveUp x off))))
+  /\ (snd (step s (MoveDown x off)) = Fail c -> same_tree s (fst (step s (MoveDown x off)))).
+Proof.
+  intros s x off c HI Q Hx. split; intro H;
+    [apply (move_up_refused_unchanged s x off c (conj HI Q) Hx H) | apply (move_down_refused_unchanged s x off c (conj HI Q) Hx H)].
+Qed.
+Print Assumptions move_up_down_refused_unchanged.
+
+(* Group.group_layers of existing layers (finding F-C10-4, characterised): whenever it answers an error,
+   (a) the error comes from the final parent.append(group), raised exactly because the resolved parent
+   (explicit, or layers[0]._parent) lies inside the new group after the moves, and (b) ALL the layers have
+   already been moved: every child list is what moving them into the new group gives.  So the refusal
+   never leaves the tree unchanged (see group_layers_late_refusal_refuted for a witness on every variant). *)
+Theorem group_layers_refusal_characterised : forall s x0 r parent c,
+  Inv s -> quiet s ->
+  Forall (fun x => alloc_ok s x /\ is_layer s x = true) (x0 :: r) -> (forall p, parent = Some p -> alloc_ok s p) ->
+  snd (step s (GroupLayers (x0 :: r) parent)) = Fail c ->
+  let n := next s in
+  let s2 := fst (move_all (alloc s new_group_obj) (x0 :: r) n) in
+  (exists p, match parent with Some q => Some q | None => oparent (objs s x0) end = Some p
+             /\ is_container s p = true /\ In p (descendants s2 n))
+  /\ (forall a, kid_ids (fst (step s (GroupLayers (x0 :: r) parent))) a
+                = sp_move_all (all_ids s ++ [n]) (kid_ids s) (x0 :: r) n a).
+Proof. intros s x0 r parent c HI Q. apply group_layers_refusal. split; assumption. Qed.
+Print Assumptions group_layers_refusal_characterised.
 
 Example refusal_example :
   let s := run (empty_state_v cfg_now) init1 in
